@@ -15,6 +15,10 @@ THEOREMS = [
     "C18.get_visible_eq_filter",
     "C18.model_meets_spec",
     "C18.unfixed_delete_counterexample",
+    # the remaining queries that read the module set / the import relation (reach audit)
+    "C18.validate_total",                      # validate_module answers exactly for the existing modules
+    "C18.validate_finds_no_missing_module",    # after every history: is_valid, no "non-existent module" error
+    "C18.dependencies_exclude_self",           # get_transitive_dependencies never reports the module itself
 ]
 N = {"quick": 3000, "thorough": 40000}
 EXHAUSTIVE = {"quick": True, "thorough": True}
@@ -28,7 +32,13 @@ RULE = ("cases = corpus + EXHAUSTIVE: after each of 3 preset states over modules
         "ModuleManager and on the Lean model; after every operation (exhaustive cases: after the last two) the result of the operation, "
         "get_imports/get_rules/get_templates/get_exports of every module, get_import_graph, and is_rule_visible / is_template_visible / "
         "get_visible_rules for every (name, module) of the case incl. a never-owned rule and non-existing modules are diffed, and the Spec "
-        "predicates (C18.snapOk, C18.stepOk) are evaluated on the implementation's observations. A case is non-trivial when an import was "
+        "predicates (C18.snapOk, C18.stepOk) are evaluated on the implementation's observations. After every operation (exhaustive cases: "
+        "after the last one) the remaining queries that read the module set and the import relation are observed as well: list_modules, "
+        "get_transitive_dependencies and validate_module for every module name of the case (diffed with the model RreModel/C18/Extra.lean; "
+        "oracle C18.extraOk: the listing names exactly the existing modules, the dependencies are exactly the modules reachable in the "
+        "observed import graph and never the module itself, validation answers exactly for existing modules, is valid without errors, "
+        "and its warnings follow the declarations), and get_import_graph_debug / get_stats / validate_all_modules are compared with "
+        "get_import_graph / get_module / validate_module of the same snapshot. GRL texts also assign rules to modules by `;; MODULE:` comments (oracle grl_rule_assignment). A case is non-trivial when an import was "
         "accepted, the graph is non-empty, and a cycle-closing import was refused, an imported module was deleted, or a rule is visible "
         "through an import; distinct = distinct case text.")
 TRUSTED = [
